@@ -4,6 +4,7 @@ import (
 	"bytes"
 	"compress/flate"
 	"encoding/base64"
+	"encoding/xml"
 	"fmt"
 	"io"
 	"net/http"
@@ -17,6 +18,7 @@ import (
 
 	"github.com/beevik/etree"
 	"github.com/crewjam/saml"
+	"github.com/crewjam/saml/samlidp"
 )
 
 // C05 — the IdP answers only valid requests and routes only to registered ACS endpoints
@@ -24,7 +26,9 @@ import (
 //
 // Simulator dimensions: the clock (request age at the IdP's skewed clock, boundary-biased),
 // Mallory editing the *unsigned* AuthnRequest in flight (decode, edit with etree, re-encode),
-// mis-delivery to another IdP tenant, and registry changes between issue and delivery.
+// mis-delivery to another IdP tenant, and registry changes between issue and delivery. The registry is a map of
+// descriptors (hand-built, or decoded by the library from metadata documents) or a real samlidp.Server where documents
+// are stored under service names, several of which may carry one entity ID.
 // The real SP issues the requests (both bindings); the real library IdP consumes them
 // (NewIdpAuthnRequest+Validate, or ServeSSO with a stub session provider).
 
@@ -60,6 +64,11 @@ type c05ACS struct {
 type c05Meta struct {
 	Entity string     `json:"entity"`
 	Descs  [][]c05ACS `json:"descs"` // one list per SPSSODescriptor
+	// Doc: the provider is registered from a metadata *document* (written by the harness, read by the library's metadata
+	// decoder, as samlsp.ParseMetadata and samlidp's PUT /services do) instead of a hand-built descriptor
+	Doc bool `json:"as_document,omitempty"`
+	// Names: the service names that carry this document when the registry is a samlidp.Server (none: one name made from its position)
+	Names []string `json:"names,omitempty"`
 }
 
 type c05Knobs struct {
@@ -67,6 +76,9 @@ type c05Knobs struct {
 	MaxClockSkewMs  int64     `json:"MaxClockSkew_ms"`
 	RegA            []c05Meta `json:"registry_a"`
 	RegB            []c05Meta `json:"registry_b"`
+	// Registry: what the IdP asks who a service provider is. "" = a map of descriptors; "server" = a samlidp.Server over a
+	// MemoryStore, where documents are stored under service names (PUT/DELETE /services/<name>) and several names may carry one entity ID
+	Registry string `json:"registry,omitempty"`
 }
 
 type c05Edit struct {
@@ -82,6 +94,8 @@ type c05RegOp struct {
 	Op     string   `json:"op"` // deregister | register
 	Entity string   `json:"entity"`
 	Meta   *c05Meta `json:"meta,omitempty"`
+	// Name (registry "server"): the service name that is put / deleted; other names carrying the entity ID stay
+	Name string `json:"name,omitempty"`
 }
 
 type c05Step struct {
@@ -164,6 +178,184 @@ func c05Flatten(m *c05Meta) []c05ACS {
 
 func c05Browser(b string) bool { return b == "post" || b == "redirect" }
 
+// c05Document writes the metadata document a provider of this shape publishes.
+func c05Document(m *c05Meta) []byte {
+	doc := etree.NewDocument()
+	ed := doc.CreateElement("EntityDescriptor")
+	ed.CreateAttr("xmlns", "urn:oasis:names:tc:SAML:2.0:metadata")
+	ed.CreateAttr("entityID", m.Entity)
+	for _, d := range m.Descs {
+		sd := ed.CreateElement("SPSSODescriptor")
+		sd.CreateAttr("protocolSupportEnumeration", "urn:oasis:names:tc:SAML:2.0:protocol")
+		for _, a := range d {
+			ep := sd.CreateElement("AssertionConsumerService")
+			ep.CreateAttr("Binding", c05BindingURI(a.B))
+			ep.CreateAttr("Location", a.Loc)
+			if a.RLoc != "" {
+				ep.CreateAttr("ResponseLocation", a.RLoc)
+			}
+			ep.CreateAttr("index", strconv.Itoa(a.Idx))
+			if a.Def != nil {
+				ep.CreateAttr("isDefault", strconv.FormatBool(*a.Def))
+			}
+		}
+	}
+	b, err := doc.WriteToBytes()
+	if err != nil {
+		panic(err)
+	}
+	return b
+}
+
+// c05Listed is what a descriptor lists, in the model's terms. For a provider registered from a document this is what the
+// library's metadata decoder made of the document: reading metadata is not this property's subject, what the registered
+// metadata lists is its premise (the decoder keeps no location for an endpoint whose binding it does not know).
+func c05Listed(ed *saml.EntityDescriptor, m *c05Meta) *c05Meta {
+	out := &c05Meta{Entity: ed.EntityID, Descs: [][]c05ACS{}, Doc: m.Doc, Names: m.Names}
+	for _, sd := range ed.SPSSODescriptors {
+		desc := []c05ACS{}
+		for _, ep := range sd.AssertionConsumerServices {
+			a := c05ACS{B: c05BindingName(ep.Binding), Loc: ep.Location, Idx: ep.Index}
+			if ep.ResponseLocation != nil {
+				a.RLoc = *ep.ResponseLocation
+			}
+			if ep.IsDefault != nil {
+				v := *ep.IsDefault
+				a.Def = &v
+			}
+			desc = append(desc, a)
+		}
+		out.Descs = append(out.Descs, desc)
+	}
+	return out
+}
+
+// c05Registry is one tenant's provider registry: the real thing the IdP asks, and beside it the harness's record of what
+// was put there (the model's premise).
+type c05Registry struct {
+	lib    mapSPP                 // registry "": entity ID -> descriptor
+	byID   map[string]*c05Meta    // registry "": entity ID -> what that descriptor lists
+	server *samlidp.Server        // registry "server"
+	stored map[string]*c05Meta    // registry "server": service name -> what the stored document lists
+	probes map[string]int         // reached states, copied into the result by the caller
+	refuse func(what string)      // the registry did not take a management call (another property's business)
+	idp    *saml.IdentityProvider // the IdP that consults this registry
+}
+
+func c05NewRegistry(kind string, tenant int, refuse func(string)) *c05Registry {
+	r := &c05Registry{probes: map[string]int{}, refuse: refuse}
+	if kind == "server" {
+		srv, err := samlidp.New(samlidp.Options{URL: mustURL(c05IdPBase[tenant]), Key: rsaKeys[0].Key, Certificate: rsaKeys[0].Cert, Logger: nullLog{}, Store: &samlidp.MemoryStore{}})
+		if err != nil {
+			panic(fmt.Sprintf("harness: samlidp.New: %v", err))
+		}
+		r.server, r.stored = srv, map[string]*c05Meta{}
+		r.idp = &srv.IDP
+		r.idp.LogoutURL = mustURL(c05IdPBase[tenant] + "/slo")
+		return r
+	}
+	r.lib, r.byID = mapSPP{}, map[string]*c05Meta{}
+	r.idp = newIdP(c05IdPBase[tenant], rsaKeys[0], r.lib)
+	return r
+}
+
+// manage sends one management call to the bundled server; anything but "done" is not what this profile examines.
+func (r *c05Registry) manage(method, name string, body []byte) bool {
+	w := httptest.NewRecorder()
+	hr := httptest.NewRequest(method, "https://idp.example.com/services/"+url.PathEscape(name), bytes.NewReader(body))
+	pan := guard(func() { r.server.ServeHTTP(w, hr) })
+	if pan != nil || w.Code != http.StatusNoContent {
+		r.refuse(fmt.Sprintf("%s /services/%s: %v HTTP_%d", method, name, pan != nil, w.Code))
+		return false
+	}
+	return true
+}
+
+// register puts m into the registry (registry "server": under the service name).
+func (r *c05Registry) register(name string, m c05Meta) bool {
+	var listed *c05Meta
+	var ed *saml.EntityDescriptor
+	if m.Doc || r.server != nil {
+		m.Doc = true
+		doc := c05Document(&m)
+		ed = &saml.EntityDescriptor{}
+		if err := xml.Unmarshal(doc, ed); err != nil {
+			r.refuse("metadata document not read: " + short(err.Error(), 80))
+			return false
+		}
+		listed = c05Listed(ed, &m)
+		r.probes["provider-registered-from-document"]++
+		if r.server != nil {
+			if !r.manage("PUT", name, doc) {
+				return false
+			}
+			r.stored[name] = listed
+			if len(r.named(m.Entity)) > 1 {
+				r.probes["entity-id-under-several-service-names"]++
+			}
+			return true
+		}
+	} else {
+		ed, listed = c05Descriptor(&m), &m
+	}
+	r.lib[m.Entity], r.byID[m.Entity] = ed, listed
+	return true
+}
+
+// deregister removes the entity (registry "server": the one service name; the entity stays known while another name carries it).
+func (r *c05Registry) deregister(entity, name string) bool {
+	if r.server == nil {
+		delete(r.lib, entity)
+		delete(r.byID, entity)
+		return true
+	}
+	if r.stored[name] == nil {
+		return true // nothing of that name (a simplified plan): no call
+	}
+	if !r.manage("DELETE", name, nil) {
+		return false
+	}
+	entity = r.stored[name].Entity
+	delete(r.stored, name)
+	if len(r.named(entity)) > 0 {
+		r.probes["service-name-removed-entity-id-still-carried"]++
+	}
+	return true
+}
+
+// named: the service names that carry the entity ID, in name order.
+func (r *c05Registry) named(entity string) []string {
+	var out []string
+	for _, n := range sortedKeys(r.stored) {
+		if r.stored[n].Entity == entity {
+			out = append(out, n)
+		}
+	}
+	return out
+}
+
+// registered: what is registered for the entity ID. Nothing: the issuer is unknown. Several: documents that differ are stored
+// for it under different names, and the statement does not say which of them is "that registered provider's metadata" - each is.
+func (r *c05Registry) registered(entity string) []*c05Meta {
+	if r.server == nil {
+		if m := r.byID[entity]; m != nil {
+			return []*c05Meta{m}
+		}
+		return nil
+	}
+	var out []*c05Meta
+	var seen []string
+	for _, n := range r.named(entity) {
+		m := r.stored[n]
+		key := string(mustJSON(m.Descs))
+		if !c05Has(seen, key) {
+			seen = append(seen, key)
+			out = append(out, m)
+		}
+	}
+	return out
+}
+
 // ---------------------------------------------------------------- generation
 
 func c05GenMeta(g *Rng, sp int) c05Meta {
@@ -222,20 +414,69 @@ func c05GenMeta(g *Rng, sp int) c05Meta {
 	return m
 }
 
-func c05GenRegistry(g *Rng) []c05Meta {
+// c05ServiceNames: the names services are stored under at a samlidp.Server (their order matters to nobody but the server).
+var c05ServiceNames = []string{"app", "crm", "portal", "portal-new", "wiki", "zz-old"}
+
+func c05GenRegistry(g *Rng, server bool) []c05Meta {
 	var out []c05Meta
 	for sp := 0; sp < 2; sp++ {
 		if sp == 0 && g.Bool(0.93) || sp == 1 && g.Bool(0.7) {
 			out = append(out, c05GenMeta(g, sp))
 		}
 	}
+	if !server {
+		for i := range out {
+			out[i].Doc = g.Bool(0.4)
+		}
+		return out
+	}
+	// a samlidp.Server stores documents under service names: one name, or two (a rename that kept the old name around)
+	free := append([]string(nil), c05ServiceNames...)
+	for i := range out {
+		out[i].Doc = true
+		for n := 1 + g.PickW(5, 5); n > 0; n-- {
+			j := g.Intn(len(free))
+			out[i].Names = append(out[i].Names, free[j])
+			free = append(free[:j], free[j+1:]...)
+		}
+	}
+	if len(out) == 2 && g.Bool(0.5) { // the order in which the services were registered
+		out[0], out[1] = out[1], out[0]
+	}
 	return out
 }
 
-func c05Find(reg []c05Meta, entity string) *c05Meta {
+// c05Entry is the generator's view of one registration: a service name (registry "": the entity ID) and what it carries.
+type c05Entry struct {
+	name string
+	meta c05Meta
+}
+
+func c05Entries(reg []c05Meta, server bool) []c05Entry {
+	var out []c05Entry
+	for i, m := range reg {
+		if !server {
+			out = append(out, c05Entry{m.Entity, m})
+			continue
+		}
+		for _, n := range c05NamesOf(&m, i) {
+			out = append(out, c05Entry{n, m})
+		}
+	}
+	return out
+}
+
+func c05NamesOf(m *c05Meta, i int) []string {
+	if len(m.Names) > 0 {
+		return m.Names
+	}
+	return []string{"svc" + strconv.Itoa(i)}
+}
+
+func c05Find(reg []c05Entry, entity string) *c05Meta {
 	for i := range reg {
-		if reg[i].Entity == entity {
-			return &reg[i]
+		if reg[i].meta.Entity == entity {
+			return &reg[i].meta
 		}
 	}
 	return nil
@@ -279,14 +520,18 @@ func genIngress(g *Rng, tier string) *Plan {
 	k := c05Knobs{
 		MaxIssueDelayMs: Pick(g, int64(1000), 7000, 90_000, 660_000, 7_200_000),
 		MaxClockSkewMs:  Pick(g, int64(0), 1000, 180_000, 1_020_000),
-		RegA:            c05GenRegistry(g),
-		RegB:            c05GenRegistry(g),
 	}
+	server := g.Bool(0.35)
+	if server {
+		k.Registry = "server"
+	}
+	k.RegA = c05GenRegistry(g, server)
+	k.RegB = c05GenRegistry(g, server)
 	if g.Bool(0.3) { // tenants that share one registry content
 		k.RegB = append([]c05Meta(nil), k.RegA...)
 	}
 	p := &Plan{Knobs: mustJSON(k)}
-	regs := [2][]c05Meta{append([]c05Meta(nil), k.RegA...), append([]c05Meta(nil), k.RegB...)}
+	regs := [2][]c05Entry{c05Entries(k.RegA, server), c05Entries(k.RegB, server)}
 	n := 1 + g.PickW(5, 3, 2)
 	for i := 0; i < n; i++ {
 		st := c05Step{Kind: "request", SP: g.PickW(3, 1), Binding: Pick(g, "redirect", "post"), Via: Pick(g, "validate", "validate", "validate", "sso", "sso")}
@@ -317,26 +562,61 @@ func genIngress(g *Rng, tier string) *Plan {
 			st.IdPSkewMs, st.DelayMs = age+st.SPSkewMs, 0
 		}
 		// registry change between issue and delivery
-		if g.Bool(0.14) {
+		if g.Bool(0.14) || server && g.Bool(0.15) {
 			ent := c05Entity(st.SP)
 			op := c05RegOp{Tenant: st.Tenant, Entity: ent}
+			var carrying, others, free []string
+			for _, e := range regs[st.Tenant] {
+				if e.meta.Entity == ent {
+					carrying = append(carrying, e.name)
+				} else {
+					others = append(others, e.name)
+				}
+			}
+			for _, n := range c05ServiceNames {
+				if !c05Has(carrying, n) && !c05Has(others, n) {
+					free = append(free, n)
+				}
+			}
 			if g.Bool(0.4) {
 				op.Op = "deregister"
+				if server && len(carrying) > 0 {
+					op.Name = carrying[g.Intn(len(carrying))] // one name goes; another may still carry the entity ID
+				}
 			} else {
 				op.Op = "register"
 				m := c05GenMeta(g, st.SP)
+				m.Doc = server || g.Bool(0.4)
 				op.Meta = &m
+				if server {
+					switch c := g.PickW(5, 3, 1); {
+					case c == 0 && len(carrying) > 0:
+						op.Name = carrying[g.Intn(len(carrying))] // the stored document is replaced
+					case c == 2 && len(others) > 0:
+						op.Name = others[g.Intn(len(others))] // a name that carried another entity ID changes hands
+					case len(free) > 0:
+						op.Name = free[g.Intn(len(free))] // one more name for the entity ID (the documents may differ)
+					default:
+						op.Name = "svc-new"
+					}
+				}
 			}
-			st.RegOps = append(st.RegOps, op)
+			if !server || op.Name != "" {
+				st.RegOps = append(st.RegOps, op)
+			}
 			// generator's view of the registry follows
-			var nr []c05Meta
-			for _, m := range regs[st.Tenant] {
-				if m.Entity != ent {
-					nr = append(nr, m)
+			var nr []c05Entry
+			for _, e := range regs[st.Tenant] {
+				if server && e.name != op.Name || !server && e.meta.Entity != ent {
+					nr = append(nr, e)
 				}
 			}
 			if op.Op == "register" {
-				nr = append(nr, *op.Meta)
+				name := op.Name
+				if !server {
+					name = ent
+				}
+				nr = append(nr, c05Entry{name, *op.Meta})
 			}
 			regs[st.Tenant] = nr
 		}
@@ -694,7 +974,8 @@ func c05Defaults(flat []c05ACS) ([]c05ACS, string) {
 	return nil, "none"
 }
 
-func c05Model(v *c05View, reg map[string]*c05Meta, sso string, idpNow time.Time, mid int64) *c05Expect {
+// c05Model: meta is what is registered for the request's issuer (nil: nothing is).
+func c05Model(v *c05View, meta *c05Meta, sso string, idpNow time.Time, mid int64) *c05Expect {
 	x := &c05Expect{}
 	// freshness
 	if !v.instantOK {
@@ -716,13 +997,11 @@ func c05Model(v *c05View, reg map[string]*c05Meta, sso string, idpNow time.Time,
 	if v.hasDest && v.dest != sso {
 		x.reject = append(x.reject, "destination")
 	}
-	var meta *c05Meta
 	if !v.hasIssuer {
 		x.reject = append(x.reject, "no-issuer")
-	} else if meta = reg[v.issuer]; meta == nil {
+		return x
+	} else if meta == nil {
 		x.reject = append(x.reject, "unregistered-issuer")
-	}
-	if meta == nil {
 		return x
 	}
 	flat := c05Flatten(meta)
@@ -797,23 +1076,40 @@ func execIngress(t *testing.T, p *Plan) *Result {
 	installRand(p)
 	start := time.Now()
 
-	// registries: what the library sees and what the model knows
-	var lib [2]mapSPP
-	var model [2]map[string]*c05Meta
-	for t, metas := range [2][]c05Meta{k.RegA, k.RegB} {
-		lib[t], model[t] = mapSPP{}, map[string]*c05Meta{}
-		for i := range metas {
-			m := metas[i]
-			lib[t][m.Entity] = c05Descriptor(&m)
-			model[t][m.Entity] = &m
-		}
-	}
+	// registries: what the IdP asks and what the model knows was put there
 	session := &saml.Session{ID: "sess", NameID: marker("nid", 0), Index: "si", UserName: marker("user", 0)}
+	var regs [2]*c05Registry
 	var idps [2]*saml.IdentityProvider
-	for t := 0; t < 2; t++ {
-		idps[t] = newIdP(c05IdPBase[t], rsaKeys[0], lib[t])
+	refused := ""
+	for t, metas := range [2][]c05Meta{k.RegA, k.RegB} {
+		regs[t] = c05NewRegistry(k.Registry, t, func(what string) {
+			if refused == "" {
+				refused = what
+			}
+		})
+		idps[t] = regs[t].idp
 		idps[t].SSOURL = mustURL(c05SSO[t])
 		idps[t].SessionProvider = fixedSession{session}
+		for i := range metas {
+			for _, name := range c05NamesOf(&metas[i], i) {
+				regs[t].register(name, metas[i])
+			}
+		}
+	}
+	if k.Registry == "server" {
+		res.probe("registry-is-samlidp-server")
+	}
+	regProbes := func() {
+		for t := range regs {
+			addCounts(res.Probes, regs[t].probes)
+			regs[t].probes = map[string]int{}
+		}
+	}
+	regProbes()
+	if refused != "" {
+		res.Excluded = "the registry did not take a management call (C19's business)"
+		res.logf("registry: %s", refused)
+		return res
 	}
 	var sps [2][2]*saml.ServiceProvider
 	for i := 0; i < 2; i++ {
@@ -829,7 +1125,7 @@ func execIngress(t *testing.T, p *Plan) *Result {
 			continue
 		}
 		if st.Kind == "idp_initiated" {
-			if !c05IdPInitiated(res, si, &st, idps[st.Tenant], model[st.Tenant]) {
+			if !c05IdPInitiated(res, si, &st, idps[st.Tenant], regs[st.Tenant]) {
 				return res
 			}
 			continue
@@ -885,16 +1181,19 @@ func execIngress(t *testing.T, p *Plan) *Result {
 			}
 			switch op.Op {
 			case "deregister":
-				delete(lib[op.Tenant], op.Entity)
-				delete(model[op.Tenant], op.Entity)
+				regs[op.Tenant].deregister(op.Entity, op.Name)
 			case "register":
 				if op.Meta != nil {
-					m := *op.Meta
-					lib[op.Tenant][m.Entity] = c05Descriptor(&m)
-					model[op.Tenant][m.Entity] = &m
+					regs[op.Tenant].register(op.Name, *op.Meta)
 				}
 			}
 			ops = append(ops, op.Op)
+		}
+		regProbes()
+		if refused != "" {
+			res.Excluded = "the registry did not take a management call (C19's business)"
+			res.logf("registry: %s", refused)
+			return res
 		}
 		idpNow := time.Now().Add(ms(st.IdPSkewMs))
 		// ---- Mallory edits the unsigned document in flight
@@ -927,16 +1226,24 @@ func execIngress(t *testing.T, p *Plan) *Result {
 		}
 		// ---- oracle
 		sso := c05SSO[st.Tenant]
-		exp := c05Model(view, model[st.Tenant], sso, idpNow, k.MaxIssueDelayMs)
-		expect := "ACCEPT"
-		switch {
-		case len(exp.reject) > 0:
-			expect = "REJECT" + fmt.Sprint(exp.reject)
-		case len(exp.zones) > 0 && (exp.rejectOK || c05HasTimeZone(exp.zones)):
-			expect = "DONT_CARE" + fmt.Sprint(exp.zones)
+		// what is registered for the issuer: one document, none, or (samlidp.Server) several that differ, stored under different names
+		var cases []*c05Case
+		if view.hasIssuer {
+			for _, m := range regs[st.Tenant].registered(view.issuer) {
+				cases = append(cases, &c05Case{meta: m})
+			}
 		}
-		if len(exp.reject) == 0 {
-			expect += " select(" + exp.mode + ")∈" + c05SetString(exp.allowed)
+		if len(cases) == 0 {
+			cases = []*c05Case{{}}
+		}
+		for _, c := range cases {
+			c.exp = c05Model(view, c.meta, sso, idpNow, k.MaxIssueDelayMs)
+			c.expect = c05ExpectString(c.exp)
+		}
+		expect := cases[0].expect
+		if len(cases) > 1 {
+			expect += fmt.Sprintf(" (or what one of %d other documents stored for the entity ID yields)", len(cases)-1)
+			res.probe("issuer-registered-with-differing-documents")
 		}
 		// ---- the real IdP
 		hr := wire.httpRequest(sso)
@@ -1013,7 +1320,7 @@ func execIngress(t *testing.T, p *Plan) *Result {
 			res.fire("registry_change")
 		}
 		nreg := 0
-		if m := model[st.Tenant][view.issuer]; m != nil {
+		if m := cases[0].meta; m != nil {
 			nreg = len(c05Flatten(m))
 		}
 		if st.Age != "far-in" || len(st.Edits) > 0 || st.Tenant != st.IssuedFor || len(ops) > 0 || nreg >= 2 {
@@ -1027,51 +1334,48 @@ func execIngress(t *testing.T, p *Plan) *Result {
 			res.logf("panic: %s", short(fmt.Sprint(pan), 80))
 			return res
 		}
+		// ---- verdict: the outcome must be what the statement allows for (one of) the registered document(s)
+		succeeded := sel != nil || action != ""
+		var chosen *c05Case
+		for _, c := range cases {
+			c.verdict, c.notes = c05Judge(c, view, st.Via, sel, action, code, observed)
+			if c.verdict == nil && chosen == nil {
+				chosen = c
+			}
+		}
+		if chosen == nil {
+			v := cases[0].verdict
+			for _, z := range cases[0].exp.zones {
+				res.dontcare(z)
+			}
+			res.violate(si, v.Class, v.Signature, expect, observed, v.Detail)
+			return res
+		}
+		exp := chosen.exp
 		for _, z := range exp.zones {
 			res.dontcare(z)
 		}
-		succeeded := sel != nil || action != ""
-		sigMode := exp.mode
-		if sigMode == "" {
-			sigMode = "none"
+		for _, n := range chosen.notes {
+			res.probe(n)
 		}
-		// necessary direction
-		if succeeded && len(exp.reject) > 0 {
-			res.violate(si, "accepted-invalid-request", "C05/accepted/"+exp.reject[0], expect, observed, "the statement forbids processing: "+strings.Join(exp.reject, ","))
-			return res
-		}
-		if succeeded {
-			flat := c05Flatten(model[st.Tenant][view.issuer])
-			if st.Via == "sso" {
-				listed, ok := false, false
-				for _, a := range flat {
-					if a.Loc == action {
-						listed = true
-					}
-				}
-				for _, a := range exp.allowed {
-					if a.Loc == action && a.B == "post" {
-						ok = true
-					}
-				}
-				if !listed {
-					res.violate(si, "routed-outside-registry", "C05/unlisted-endpoint/"+c05Origin(action, view), "a registered ACS location", observed, "form action is not among the registered provider's ACS locations")
-					return res
-				}
-				if !ok {
-					res.violate(si, "wrong-endpoint-selected", "C05/wrong-endpoint/"+sigMode, expect, observed, "form action is a registered location but not the one the chain index→URL→default selects (or not an HTTP-POST endpoint)")
-					return res
-				}
-			} else {
-				if !c05In(flat, *sel) {
-					res.violate(si, "routed-outside-registry", "C05/unlisted-endpoint/"+c05Origin(sel.Loc, view), "a registered ACS endpoint", observed, "selected endpoint is not listed in the registered provider's metadata")
-					return res
-				}
-				if !c05In(exp.allowed, *sel) {
-					res.violate(si, "wrong-endpoint-selected", "C05/wrong-endpoint/"+sigMode, expect, observed, "selected endpoint is registered but not the one the chain index→URL→default selects")
-					return res
+		if chosen.meta != nil {
+			unlocated := false
+			for _, a := range c05Flatten(chosen.meta) {
+				if a.Loc == "" {
+					unlocated = true
 				}
 			}
+			if unlocated {
+				res.probe("provider-lists-endpoint-without-location")
+				if succeeded && view.acsURL == "" {
+					res.probe("answered-request-without-url-beside-endpoint-without-location")
+				}
+			}
+			if succeeded && len(regs[st.Tenant].named(view.issuer)) > 1 {
+				res.probe("answered-issuer-under-several-service-names")
+			}
+		}
+		if succeeded {
 			switch exp.mode {
 			case "index", "index-over-url":
 				res.probe("selected-by-index")
@@ -1087,7 +1391,7 @@ func execIngress(t *testing.T, p *Plan) *Result {
 			case "url-after-unmatched-index":
 				res.probe("selected-by-url-after-unmatched-index")
 			}
-			if len(model[st.Tenant][view.issuer].Descs) > 1 && sel != nil && !c05In(model[st.Tenant][view.issuer].Descs[0], *sel) {
+			if len(chosen.meta.Descs) > 1 && sel != nil && !c05In(chosen.meta.Descs[0], *sel) {
 				res.probe("endpoint-of-second-descriptor-selected")
 			}
 			if st.Tenant != st.IssuedFor {
@@ -1099,35 +1403,101 @@ func execIngress(t *testing.T, p *Plan) *Result {
 			if st.Age == "in+1ms" && !c05Has(edits, "redate") {
 				res.probe("accepted-1ms-inside")
 			}
-		} else {
-			// sufficient direction
-			must := len(exp.reject) == 0 && len(exp.zones) == 0 && !exp.rejectOK
-			if must && st.Via == "sso" && code == 500 {
-				// the chain may have selected a registered endpoint that cannot carry a POST form
-				for _, a := range exp.allowed {
-					if a.B != "post" {
-						must = false
-						res.probe("validated-but-selected-endpoint-not-post")
-					}
-				}
+		} else if len(exp.reject) == 1 {
+			res.probe("rejected-only-for:" + exp.reject[0])
+			if exp.reject[0] == "stale" && st.Age == "out-1ms" && !c05Has(edits, "redate") {
+				res.probe("rejected-1ms-outside")
 			}
-			if must {
-				res.violate(si, "rejected-valid-request", "C05/rejected-valid/"+sigMode, expect, observed, "fresh, version 2.0, destination ok, issuer registered, requested endpoint registered")
-				return res
-			}
-			if len(exp.reject) == 1 {
-				res.probe("rejected-only-for:" + exp.reject[0])
-				if exp.reject[0] == "stale" && st.Age == "out-1ms" && !c05Has(edits, "redate") {
-					res.probe("rejected-1ms-outside")
-				}
-				if exp.reject[0] == "unregistered-issuer" && c05Has(ops, "deregister") {
-					res.probe("rejected-after-deregistration")
-				}
+			if exp.reject[0] == "unregistered-issuer" && c05Has(ops, "deregister") {
+				res.probe("rejected-after-deregistration")
 			}
 		}
 	}
 	res.SimMillis = time.Since(start).Milliseconds()
 	return res
+}
+
+// c05Case: the expectation for one document registered for the issuer, and how the observed outcome fares against it.
+type c05Case struct {
+	meta    *c05Meta
+	exp     *c05Expect
+	expect  string
+	verdict *Violation
+	notes   []string
+}
+
+func c05ExpectString(exp *c05Expect) string {
+	expect := "ACCEPT"
+	switch {
+	case len(exp.reject) > 0:
+		expect = "REJECT" + fmt.Sprint(exp.reject)
+	case len(exp.zones) > 0 && (exp.rejectOK || c05HasTimeZone(exp.zones)):
+		expect = "DONT_CARE" + fmt.Sprint(exp.zones)
+	}
+	if len(exp.reject) == 0 {
+		expect += " select(" + exp.mode + ")∈" + c05SetString(exp.allowed)
+	}
+	return expect
+}
+
+// c05Judge compares the observed outcome with the expectation of one case. nil: the statement is satisfied.
+func c05Judge(c *c05Case, view *c05View, via string, sel *c05ACS, action string, code int, observed string) (*Violation, []string) {
+	exp := c.exp
+	succeeded := sel != nil || action != ""
+	sigMode := exp.mode
+	if sigMode == "" {
+		sigMode = "none"
+	}
+	// necessary direction
+	if succeeded && len(exp.reject) > 0 {
+		return &Violation{Class: "accepted-invalid-request", Signature: "C05/accepted/" + exp.reject[0], Detail: "the statement forbids processing: " + strings.Join(exp.reject, ",")}, nil
+	}
+	if succeeded {
+		flat := c05Flatten(c.meta)
+		if via == "sso" {
+			listed, ok := false, false
+			for _, a := range flat {
+				if a.Loc == action {
+					listed = true
+				}
+			}
+			for _, a := range exp.allowed {
+				if a.Loc == action && a.B == "post" {
+					ok = true
+				}
+			}
+			if !listed {
+				return &Violation{Class: "routed-outside-registry", Signature: "C05/unlisted-endpoint/" + c05Origin(action, view), Detail: "form action is not among the registered provider's ACS locations"}, nil
+			}
+			if !ok {
+				return &Violation{Class: "wrong-endpoint-selected", Signature: "C05/wrong-endpoint/" + sigMode, Detail: "form action is a registered location but not the one the chain index→URL→default selects (or not an HTTP-POST endpoint)"}, nil
+			}
+			return nil, nil
+		}
+		if !c05In(flat, *sel) {
+			return &Violation{Class: "routed-outside-registry", Signature: "C05/unlisted-endpoint/" + c05Origin(sel.Loc, view), Detail: "selected endpoint is not listed in the registered provider's metadata"}, nil
+		}
+		if !c05In(exp.allowed, *sel) {
+			return &Violation{Class: "wrong-endpoint-selected", Signature: "C05/wrong-endpoint/" + sigMode, Detail: "selected endpoint is registered but not the one the chain index→URL→default selects"}, nil
+		}
+		return nil, nil
+	}
+	// sufficient direction
+	var notes []string
+	must := len(exp.reject) == 0 && len(exp.zones) == 0 && !exp.rejectOK
+	if must && via == "sso" && code == 500 {
+		// the chain may have selected a registered endpoint that cannot carry a POST form
+		for _, a := range exp.allowed {
+			if a.B != "post" {
+				must = false
+				notes = append(notes, "validated-but-selected-endpoint-not-post")
+			}
+		}
+	}
+	if must {
+		return &Violation{Class: "rejected-valid-request", Signature: "C05/rejected-valid/" + sigMode, Detail: "fresh, version 2.0, destination ok, issuer registered, requested endpoint registered"}, nil
+	}
+	return nil, notes
 }
 
 // c05AgeRel names the relation of the delivered IssueInstant to the IdP clock (abstract, for the log).
@@ -1178,21 +1548,29 @@ func c05HasTimeZone(z []string) bool {
 
 // c05Origin says where an unlisted location came from (for the violation signature).
 func c05Origin(loc string, v *c05View) string {
-	if loc == v.acsURL {
+	if loc != "" && loc == v.acsURL {
 		return "request-url-echoed"
 	}
 	return "elsewhere"
 }
 
 // c05IdPInitiated: the IdP-initiated launch must also route only into the registry.
-func c05IdPInitiated(res *Result, si int, st *c05Step, idp *saml.IdentityProvider, reg map[string]*c05Meta) bool {
-	var posts []string
-	meta := reg[st.Entity]
-	if meta != nil {
-		for _, a := range c05Flatten(meta) {
+func c05IdPInitiated(res *Result, si int, st *c05Step, idp *saml.IdentityProvider, reg *c05Registry) bool {
+	var posts []string // HTTP-POST endpoints of (any of) the document(s) registered for the entity ID
+	metas := reg.registered(st.Entity)
+	var meta *c05Meta
+	obliged := len(metas) > 0 // whichever document is meant, it lists an HTTP-POST endpoint
+	for _, m := range metas {
+		meta = m
+		has := false
+		for _, a := range c05Flatten(m) {
 			if a.B == "post" {
 				posts = append(posts, a.Loc)
+				has = true
 			}
+		}
+		if !has {
+			obliged = false
 		}
 	}
 	expect := "NO_FORM"
@@ -1228,7 +1606,7 @@ func c05IdPInitiated(res *Result, si int, st *c05Step, idp *saml.IdentityProvide
 			return false
 		}
 		res.probe("idp-initiated-routed")
-	} else if len(posts) > 0 {
+	} else if obliged {
 		res.violate(si, "rejected-valid-request", "C05/idp-initiated/not-answered", expect, observed, "")
 		return false
 	}
@@ -1290,6 +1668,23 @@ func simplifyIngress(p *Plan) []*Plan {
 				c.Knobs = mustJSON(k2)
 				out = append(out, c)
 			}
+			if len(m.Names) > 1 { // one service name less
+				for ni := range m.Names {
+					k2 := decode[c05Knobs](p.Knobs)
+					nn := (*get(&k2))[mi].Names
+					(*get(&k2))[mi].Names = append(append([]string{}, nn[:ni]...), nn[ni+1:]...)
+					c := p.Clone()
+					c.Knobs = mustJSON(k2)
+					out = append(out, c)
+				}
+			}
+			if m.Doc && k.Registry == "" { // a hand-built descriptor instead of a document
+				k2 := decode[c05Knobs](p.Knobs)
+				(*get(&k2))[mi].Doc = false
+				c := p.Clone()
+				c.Knobs = mustJSON(k2)
+				out = append(out, c)
+			}
 			for di, d := range m.Descs {
 				for ai := range d {
 					k2 := decode[c05Knobs](p.Knobs)
@@ -1301,6 +1696,13 @@ func simplifyIngress(p *Plan) []*Plan {
 				}
 			}
 		}
+	}
+	if k.Registry != "" { // the map of descriptors instead of the bundled server (service names then mean nothing)
+		k2 := decode[c05Knobs](p.Knobs)
+		k2.Registry = ""
+		c := p.Clone()
+		c.Knobs = mustJSON(k2)
+		out = append(out, c)
 	}
 	if k.MaxIssueDelayMs != 90_000 || k.MaxClockSkewMs != 180_000 {
 		// default tolerances only if the age classes are re-derived, which the plan does not support: leave them
@@ -1314,7 +1716,7 @@ var _ = sort.Strings
 func init() {
 	register(&Profile{
 		ID: "C05", Name: "idp-ingress", Level: "exploration",
-		Rule: "each run: two IdP tenants (SSO URLs where one is a prefix of the other) with registries of hand-built SP metadata (0-2 SPSSODescriptors, 0-4 ACS endpoints each, POST/Redirect/Artifact/unknown bindings, distinct/duplicate indices, isDefault true/false/absent, duplicate and near-miss locations); 1-3 steps, each: the real SP issues an AuthnRequest (redirect or POST binding), the network delays it so that its age at the IdP's skewed clock is {far-in, MaxIssueDelay-1ms, +1ms, edge, half, 1.5x, 5x, far-out, near/far future}, Mallory applies 0-2 edits to the unsigned document (ACS URL unregistered/near-miss/other registered, index registered/unregistered/non-numeric, index+disagreeing URL, neither, Issuer other/unknown/near-miss/dropped, Destination other tenant/near-miss/prefix/absent, Version variants, re-dating), the registry may change between issue and delivery, the message may reach the other tenant; the real IdP consumes it via NewIdpAuthnRequest+Validate or ServeSSO (plus IdP-initiated launches); non-trivial = a step with a non-far-in age, an edit, a cross-tenant delivery, a registry change, or a provider with >=2 registered endpoints; distinct = distinct abstract event log (binding, entry, age class, edit kinds, expectation incl. permitted endpoint set, outcome incl. selected endpoint); registered ACS elements may carry a ResponseLocation attribute (never a routing target); the HTTP Host header may follow the delivered document's Destination or name a proxy (the configured SSO URL alone says where the IdP lives)",
+		Rule: "each run: two IdP tenants (SSO URLs where one is a prefix of the other) with registries of hand-built SP metadata (0-2 SPSSODescriptors, 0-4 ACS endpoints each, POST/Redirect/Artifact/unknown bindings, distinct/duplicate indices, isDefault true/false/absent, duplicate and near-miss locations); 1-3 steps, each: the real SP issues an AuthnRequest (redirect or POST binding), the network delays it so that its age at the IdP's skewed clock is {far-in, MaxIssueDelay-1ms, +1ms, edge, half, 1.5x, 5x, far-out, near/far future}, Mallory applies 0-2 edits to the unsigned document (ACS URL unregistered/near-miss/other registered, index registered/unregistered/non-numeric, index+disagreeing URL, neither, Issuer other/unknown/near-miss/dropped, Destination other tenant/near-miss/prefix/absent, Version variants, re-dating), the registry may change between issue and delivery, the message may reach the other tenant; the real IdP consumes it via NewIdpAuthnRequest+Validate or ServeSSO (plus IdP-initiated launches); non-trivial = a step with a non-far-in age, an edit, a cross-tenant delivery, a registry change, or a provider with >=2 registered endpoints; distinct = distinct abstract event log (binding, entry, age class, edit kinds, expectation incl. permitted endpoint set, outcome incl. selected endpoint); registered ACS elements may carry a ResponseLocation attribute (never a routing target); the HTTP Host header may follow the delivered document's Destination or name a proxy (the configured SSO URL alone says where the IdP lives); providers are registered from hand-built descriptors or (40%; always at a server) from metadata documents written by the harness and read by the library's metadata decoder (which keeps no Location for an endpoint of a binding it does not know); in 35% of runs each tenant's registry is a samlidp.Server over a MemoryStore, its IdentityProvider consulted with the SSO URL and a fixed session set on it: documents are PUT under one or two service names per entity ID in a drawn order, registry changes PUT a document under a name that carries the entity ID, a new name or a name of the other entity ID, or DELETE one name while another may still carry the entity ID; when documents that differ are stored for one entity ID the outcome must be what the statement yields for one of them",
 		Gen:  genIngress, Exec: execIngress, Simplify: simplifyIngress,
 		RunsQuick: 8000, RunsThorough: 800000,
 		Assumptions: []string{
@@ -1324,10 +1726,12 @@ func init() {
 			"index given and registered but URL given and pointing elsewhere: the index must win if accepted; refusal is not an alarm",
 			"browser-binding = HTTP-POST or HTTP-Redirect; requested index matches by canonical decimal text",
 			"a request without Issuer must not be processed; the pinned tree panics on it (excluded here, reported under C09, counted by probe)",
+			"what a provider registered from a metadata document lists is what the library's metadata decoder reads from that document (decoding metadata is not this property's subject); an endpoint it keeps without Location is listed, can be chosen by its index, and is never what a request that names no URL asked for",
+			"registry = samlidp.Server: an entity ID is known while a stored service carries it; if the stored documents for it differ, each of them counts as that provider's registered metadata; a management call the server does not answer with 204 excludes the run (C19's business)",
 		},
 		Components: map[string][]string{
-			"real": {"saml.ServiceProvider.MakeAuthenticationRequest", "AuthnRequest.Redirect/Post", "saml.NewIdpAuthnRequest", "IdpAuthnRequest.Validate (getACSEndpoint)", "IdentityProvider.ServeSSO / ServeIDPInitiated", "DefaultAssertionMaker, WriteResponse (via=sso)", "xml-roundtrip-validator, encoding/xml, flate"},
-			"stub": {"registry (map of hand-built EntityDescriptors)", "session provider (fixed session)", "network delay / clock skew (bubble clock)", "Mallory (etree edit + re-encode)", "browser (form parser)"},
+			"real": {"saml.ServiceProvider.MakeAuthenticationRequest", "AuthnRequest.Redirect/Post", "saml.NewIdpAuthnRequest", "IdpAuthnRequest.Validate (getACSEndpoint)", "IdentityProvider.ServeSSO / ServeIDPInitiated", "DefaultAssertionMaker, WriteResponse (via=sso)", "xml-roundtrip-validator, encoding/xml, flate", "saml.EntityDescriptor XML decoding (providers registered from documents)", "samlidp.Server PUT/DELETE /services and GetServiceProvider over samlidp.MemoryStore (registry=server)"},
+			"stub": {"registry (map of EntityDescriptors; 35% of runs the real samlidp.Server instead)", "session provider (fixed session)", "network delay / clock skew (bubble clock)", "Mallory (etree edit + re-encode)", "browser (form parser)"},
 		},
 	})
 }
